@@ -1,11 +1,19 @@
 import PQ.Model.Iter
+import PQ.Lemmas.Defs
 /-!
 # Histories: a typed alphabet of public operations and the step function of both queue kinds
 
 `Q` is a queue (kind + store).  `step` dispatches to the mirror functions of `PQ.lean` / `DPQ.lean` / `Store.lean`;
 property theorems quantify over `List (Op P)` ("for all finite histories of public operations").
-Closures are data (`f : Item → P → Bool × Item × P`, `w : Item → Item`, `g : P → P`); `Op.Legal` records the one thing the
-crate's documentation demands of them: they must not change an item's identity (`Hash`/`Eq`).
+Closures are data (`f : Item → P → Bool × Item × P`, `w : Item → Item`, `g : P → P`); iterators are the pairs they yield plus
+the lower bound of their `size_hint`; the other queue of `append` is its store; the input of `Deserialize` is the pairs it
+contains plus the length it announces.  `Op.Legal` records what the documentation demands of the caller: closures must not
+change an item's identity (`Hash`/`Eq`), the other queue of `append` is a (well-formed) queue, and a `size_hint` handed to
+`extend` / `from_iter` is a legal one (its lower bound does not exceed what the iterator yields).  The length announced to
+`Deserialize` is untrusted input: every value is legal.
+
+(`PQ.Lemmas.Defs` is imported for the *definition* of `Store.WF` only, which `Op.Legal` needs for the argument of `append`;
+it contains definitions over core Lean only, so this file still links into the native driver.)
 -/
 namespace PQ
 
@@ -25,6 +33,13 @@ inductive Out (P : Type) where
   | bool (b : Bool)
   | entries (l : List (Item × P))
   | outs (l : List IOut)
+  /-- `append(&mut other)`: what the call leaves of the OTHER queue, as the four lengths an observer can read from it —
+  `other.len()`, and the lengths of its map and of its two index tables (all `0`: `other` is drained, `C07_append`) -/
+  | other (len map heap qp : Nat)
+  /-- a number (`len()`): produced by observations only (`PQ/Model/Observe.lean`), never by `step` -/
+  | nat (n : Nat)
+  /-- what `{:?}` lists (`Store.debugEntries`): produced by observations only -/
+  | debug (l : List (Nat × Item × P))
 
 inductive Op (P : Type) where
   | push (it : Item) (p : P)
@@ -50,12 +65,18 @@ inductive Op (P : Type) where
   /-- `iter_mut`: a program of calls, each followed by a write through the yielded reference; `leak = true` means the
   guard is `mem::forget`-ten (no rebuild) -/
   | iterMut (leak : Bool) (prog : List (ICall × IMWrite P))
+  /-- `extend(iter)`: `xs` are the pairs the iterator yields, `lo` the lower bound of its `size_hint` (the upper bound is
+  never read by the code and is not part of the model) -/
   | extend (lo : Nat) (xs : Array (Item × P))
-  /-- `append(other)` where `other` holds the (distinct-key) entries `xs` in this slot order -/
-  | append (xs : Array (Item × P))
+  /-- `append(&mut other)` where `other` is ANY queue of the same kind, given by its store (legal when the store is
+  well-formed — it need not be ordered: the result is rebuilt) -/
+  | append (o : Store P)
   | fromVec (xs : Array (Item × P))
-  | fromIter (xs : Array (Item × P))
-  | deserialize (xs : Array (Item × P))
+  /-- `FromIterator::from_iter(iter)`: pairs yielded and lower bound of the `size_hint`, as for `extend` -/
+  | fromIter (lo : Nat) (xs : Array (Item × P))
+  /-- `Deserialize`: `xs` are the pairs the input contains, `hint` the length it ANNOUNCES (`SeqAccess::size_hint`) —
+  untrusted input, any value at all -/
+  | deserialize (hint : Option Nat) (xs : Array (Item × P))
   /-- `From<the other queue kind>` -/
   | convert
   | clear
@@ -65,10 +86,15 @@ inductive Op (P : Type) where
   the allocator grants: no effect on the modelled state (capacity is not part of it) -/
   | capacityOp
 
-/-- closures must not change the identity of an item -/
+/-- closures must not change the identity of an item; the other queue handed to `append` is a (well-formed) queue; the
+`size_hint` of an iterator handed to `extend` / `from_iter` is a LEGAL one: its lower bound does not exceed the number of
+pairs the iterator yields (`Iterator::size_hint`'s contract), and that number is one a `Vec` can hold.  `deserialize` is
+legal for EVERY announced length: the hint is untrusted input. -/
 def Op.Legal {P : Type} : Op P → Prop
   | .getMut _ w | .peekFrontMut w | .peekBackMut w => ∀ it, (w it).key = it.key
   | .popFrontIf f | .popBackIf f | .retainMut f => ∀ it p, (f it p).2.1.key = it.key
+  | .append o => o.WF
+  | .extend lo xs | .fromIter lo xs => lo ≤ xs.size ∧ xs.size < capLimit
   | _ => True
 
 variable {P : Type} [LT P] [DecidableLT P]
@@ -168,17 +194,17 @@ def step (q : Q P) : Op P → R (Q P × Out P)
   | .extend lo xs => do
     let s ← (match q.kind with | .pq => MaxQ.extend q.s lo xs | .dpq => DQ.extend q.s lo xs)
     pure ({ q with s := s }, .unit)
-  | .append xs => do
-    let (s, _) ← (match q.kind with | .pq => MaxQ.append q.s (Store.fromVec xs) | .dpq => DQ.append q.s (Store.fromVec xs))
-    pure ({ q with s := s }, .unit)
+  | .append o => do
+    let (s, o') ← (match q.kind with | .pq => MaxQ.append q.s o | .dpq => DQ.append q.s o)
+    pure ({ q with s := s }, .other o'.size o'.map.size o'.heap.size o'.qp.size)
   | .fromVec xs => do
     let s ← (match q.kind with | .pq => MaxQ.fromVec xs | .dpq => DQ.fromVec xs)
     pure ({ q with s := s }, .unit)
-  | .fromIter xs => do
-    let s ← (match q.kind with | .pq => MaxQ.fromIter xs | .dpq => DQ.fromIter xs)
+  | .fromIter lo xs => do
+    let s ← (match q.kind with | .pq => MaxQ.fromIter lo xs | .dpq => DQ.fromIter lo xs)
     pure ({ q with s := s }, .unit)
-  | .deserialize xs => do
-    let s ← (match q.kind with | .pq => MaxQ.deserialize xs | .dpq => DQ.deserialize xs)
+  | .deserialize hint xs => do
+    let s ← (match q.kind with | .pq => MaxQ.deserialize hint xs | .dpq => DQ.deserialize hint xs)
     pure ({ q with s := s }, .unit)
   | .convert =>
     match q.kind with
